@@ -210,7 +210,7 @@ def run(res, tier, seed):
         bad, recs = rz.run_resize_trace(res, "c03", cases, profile=profile)
         for (c, r, reason) in bad:
             d = rz.describe(c)
-            res.violation(what="C03 %s" % reason, reason=reason, build=profile, ret=r.get("ret"), alg=d["alg"], pt=d["pt"], cpu=d["cpu"], filter=d["filter"],
+            res.violation(what="C03 %s" % reason, reason=reason, build=profile, ret=r.get("ret"), alg=d.get("alg", d.get("op", d.get("ctl"))), pt=d.get("pt"), cpu=d.get("cpu"), filter=d.get("filter"),
                           crop=c["opt"].get("crop"), fparam=c["opt"].get("fparam"), case=d)
     # (C) clip-table index for custom kernels on the portable path
     clip = gen_clip(tier, rng)
